@@ -603,7 +603,9 @@ impl<'a, T: Send> Future for RecvBatchFuture<'a, T> {
             .waiting_async_receivers
             .retain(|w| w.state != state_ptr);
           drop(guard);
-          return Poll::Ready(Err(RecvError::Disconnected));
+          // The last sender is gone, but values sent before that may still be
+          // buffered: fall through to the normal path, which drains the buffer
+          // first and reports Disconnected only once it is empty.
         }
       }
     }
@@ -698,7 +700,9 @@ impl<'a, T: Send> Future for RecvBatchMutFuture<'a, T> {
             .waiting_async_receivers
             .retain(|w| w.state != state_ptr);
           drop(guard);
-          return Poll::Ready(Err(RecvError::Disconnected));
+          // The last sender is gone, but values sent before that may still be
+          // buffered: fall through to the normal path, which drains the buffer
+          // first and reports Disconnected only once it is empty.
         }
       }
     }
@@ -789,7 +793,9 @@ impl<'a, T: Send> Future for RecvFuture<'a, T> {
             .waiting_async_receivers
             .retain(|w| w.state != state_ptr);
           drop(guard);
-          return Poll::Ready(Err(RecvError::Disconnected));
+          // The last sender is gone, but values sent before that may still be
+          // buffered: fall through to the normal path, which drains the buffer
+          // first and reports Disconnected only once it is empty.
         }
       }
     }
